@@ -219,10 +219,10 @@ theorem lookupLpt_symm (s : State) (d1 d2 : Denom) : lookupLpt s d1 d2 = lookupL
     by_cases h1 : d1 = s.std
     · have h2 : ¬ d2 = s.std := fun h => e (h1.trans h.symm)
       subst h1
-      simp [e, e', h2]
+      simp [e, e']
     · by_cases h2 : d2 = s.std
       · subst h2
-        simp [e, e', h1]
+        simp [e, e']
       · simp [e, e', h1, h2]
 
 theorem lookupLpt_cfg {s s' : State} (h : SameCfg s s') (d1 d2 : Denom) : lookupLpt s' d1 d2 = lookupLpt s d1 d2 := by
